@@ -37,6 +37,16 @@ Definition of_event (e : event) : term :=
   end.
 
 
+(* a candidate name is shipped relative to the search-path entry it lies under: [index; rest] *)
+Fixpoint strip_paths (ps : list string) (k : Z) (name : string) : term :=
+  match ps with
+  | [] => TL [TZ (-1); TS name]
+  | p :: r =>
+      if String.eqb name p then TL [TZ k; TS ""]
+      else if has_prefix (p ++ "/") name then TL [TZ k; TS (drop (String.length p + 1) name)]
+      else strip_paths r (k + 1) name
+  end.
+
 Definition run_C09 (i : term) : term :=
   let op := gs (gn i 0) in
   if String.eqb op "tagrange" then
@@ -47,15 +57,22 @@ Definition run_C09 (i : term) : term :=
     | Panic s => of_outcome_panic s
     end
   else if String.eqb op "locate" then
-    let npaths := gz (gn i 1) in
-    let one (m : term) : outcome Z :=
-      bind (locate_candidates (fun s => s) (fun s => s) "<path>" (gs (gn m 0)) (gs (gn m 1)) [])
-           (fun l => Ok (npaths * Z.of_nat (List.length l))) in
+    (* input: search-path entries, mappings (file, build id); observable: per mapping the names handed to
+       ObjTool.Open, in order (every Open fails, so every candidate of every path entry is tried) *)
+    let paths := gss (gn i 1) in
+    let one (m : term) : outcome (list string) :=
+      (fix over (ps : list string) : outcome (list string) :=
+         match ps with
+         | [] => Ok []
+         | p :: r =>
+             bind (locate_candidates path_base path_dir p (gs (gn m 0)) (gs (gn m 1)) []) (fun l =>
+             bind (over r) (fun rest => Ok (map path_join l ++ rest)%list))
+         end) paths in
     (fix go (ms : list term) (acc : list term) : term :=
        match ms with
        | [] => TL [TS "ok"; TL (rev acc)]
        | m :: r => match one m with
-                   | Ok n => go r (TZ n :: acc)
+                   | Ok names => go r (TL (map (strip_paths paths 0) names) :: acc)
                    | Err => TS "err"
                    | Panic s => of_outcome_panic s
                    end
@@ -120,6 +137,16 @@ Fixpoint contains_sub (sub s : string) : bool :=
 Definition f25 (lines : term) (asks_weblist : bool) : list Z :=
   [].  (* F25 repaired in /repo (b775123): no class; the witness is still replayed and must not hang *)
 
+(* class 38 = F38: a -divide_by flag whose reciprocal overflows float64 AND a /flamegraph request *)
+Definition f38 (i : term) : list Z :=
+  let divs := filter (fun a => has_prefix "-divide_by=" a) (gss (gn i 1)) in
+  let tiny (a : string) : bool :=
+    match pf_of (gn i 5) (drop 11 a) with
+    | Some (TL [TZ n; TZ d]) => reciprocal_overflows n d
+    | _ => false
+    end in
+  if existsb tiny divs && existsb (fun rq => String.eqb (gs (gn rq 0)) "/flamegraph") (gl (gn i 2)) then [38] else [].
+
 Definition cls_C09 (i : term) : list Z :=
   let op := gs (gn i 0) in
   if String.eqb op "session" then
@@ -128,7 +155,7 @@ Definition cls_C09 (i : term) : list Z :=
   else if String.eqb op "locate" then
     if existsb (fun m => glob_unsafe (gs (gn m 1))) (gl (gn i 2)) then [901] else []
   else if String.eqb op "web" then
-    f25 (gn i 4) (existsb (fun rq => String.eqb (gs (gn rq 0)) "/source") (gl (gn i 2)))
+    (f25 (gn i 4) (existsb (fun rq => String.eqb (gs (gn rq 0)) "/source") (gl (gn i 2))) ++ f38 i)%list
   else if String.eqb op "cli" then
     f25 (gn i 4) (existsb (contains_sub "weblist") (gss (gn i 1) ++ gss (gn i 2))%list)
   else if String.eqb op "symmode" then
